@@ -692,7 +692,10 @@ DIFFS = ["shift-one-cell", "shift-half-cell", "other-n", "other-cell", "nm-scale
          "same-box-other-dimension-names",
          "nvdim-2-vs-3", "nvdim-3-vs-4", "nvdim-2-vs-4"]
 REFUSE_OPS = ["add", "sub", "mul", "div", "pow", "matmul", "and", "lshift", "dot", "cross", "angle", "npadd", "npmul",
-              "nppow"]
+              "nppow", "npadd-out=first", "npmul-out=second", "nparctan2-out=first"]
+# ufuncs whose out= is one of the operands: a refused call must not have written into it
+OUT_FORMS = {"npadd-out=first": lambda a, b: np.add(a, b, out=a), "npmul-out=second": lambda a, b: np.multiply(a, b, out=(b,)),
+             "nparctan2-out=first": lambda a, b: np.arctan2(a, b, out=a)}
 
 
 def unit_refuse(ctx):
@@ -711,6 +714,9 @@ def unit_refuse(ctx):
         mesh2 = mesh
         if op == "lshift":
             ctx.note("skip:stacking-fields-of-different-component-count-is-legal")
+            raise engine.Skip()
+        if op in OUT_FORMS:
+            ctx.note("skip:out=-forms-are-probed-with-different-meshes-only")
             raise engine.Skip()
     else:
         ka, kb = (int(k[0]), int(k[2])) if isinstance(k, str) else (k, k)
@@ -752,7 +758,7 @@ def unit_refuse(ctx):
     ctx.step(1, f"{op}({x.name}, {y.name}) [{diff}]")
     ctx.check()
     with np.errstate(all="ignore"):
-        raised, res = C.raises(call, op, x, y)
+        raised, res = C.raises(OUT_FORMS[op], x.v, y.v) if op in OUT_FORMS else C.raises(call, op, x, y)
     ctx.observe(raised, type(res).__name__)
     if raised:
         ctx.note(f"refused-with:{type(res).__name__}")
